@@ -1,6 +1,8 @@
-(** Model of cmd/benchstat/internal/texttab (table.go), with the repair of
+(** Model of cmd/benchstat/internal/texttab (table.go), with the repairs of
     hooks/fix_c16_allshrink_span.diff: a span cell whose columns are all
-    "shrink" columns grows them (as if none were shrink) instead of not fitting.
+    "shrink" columns grows them (as if none were shrink) instead of not fitting;
+    hooks/fix_c16_blank_aligned_padding.diff: a blank centred / right-aligned
+    text gets no alignment padding (which ended the line in blanks).
 
     Widths and offsets are counted in runes ([Runes.rune_count] =
     utf8.RuneCountInString). Widths are [Z] (Go int; the remaining need [w] of
@@ -153,12 +155,25 @@ Definition fmt_pad (n : Z) (s : bytes) : bytes :=
   if 0 <=? n then spaces (n - rune_count s) ++ s
   else s ++ spaces (- n - rune_count s).
 
-Definition lpad (a : align) (s : bytes) (w : Z) : bytes :=
+(** [align.lpad] as in golang/perf e346888, BEFORE the repair of
+    hooks/fix_c16_blank_aligned_padding.diff: a blank text is padded like any
+    other (kept only for the witness C16_trailing_blank_empty_aligned_refuted) *)
+Definition lpad_asis (a : align) (s : bytes) (w : Z) : bytes :=
   match a with
   | ALeft => s
   | ACenter => fmt_pad (Z.quot (w - rune_count s) 2) [] ++ s
   | ARight => fmt_pad w s
   end.
+
+(** repaired (hooks/fix_c16_blank_aligned_padding.diff): a blank text
+    (strings.TrimSpace(s) == "", the test Format already uses to skip empty
+    cells) is written as it is - there is nothing to align, and the padding
+    would end the line in blanks when the cell is the last one printed *)
+Definition lpad (a : align) (s : bytes) (w : Z) : bytes :=
+  if all_blank s then s else lpad_asis a s w.
+
+(** the alignment that takes effect *)
+Definition eff_align (a : align) (s : bytes) : align := if all_blank s then ALeft else a.
 
 Definition printed (c : cell) : bool := negb (all_blank (c_val c) && all_blank (c_margin c)).
 
@@ -176,6 +191,17 @@ Definition emit_cell (offs lm : list Z) (st : Z * bytes) (c : cell) : Z * bytes 
 
 Definition emit_row (offs lm : list Z) (cs : list cell) : bytes :=
   snd (fold_left (emit_cell offs lm) cs (0, [])).
+
+(** one row as the code BEFORE hooks/fix_c16_blank_aligned_padding.diff wrote it *)
+Definition emit_cell_asis (offs lm : list Z) (st : Z * bytes) (c : cell) : Z * bytes :=
+  let '(off, out) := st in
+  let spc := getz offs (c_col c) - off in
+  let mg := fmt_pad spc [] ++ fmt_pad (getz lm (c_col c)) (c_margin c) in
+  let off1 := off + spc + getz lm (c_col c) in
+  let s := lpad_asis (c_align c) (c_val c) (cell_tw offs lm c) in
+  (off1 + rune_count s, out ++ mg ++ s).
+Definition emit_row_asis (offs lm : list Z) (cs : list cell) : bytes :=
+  snd (fold_left (emit_cell_asis offs lm) cs (0, [])).
 
 (** cells of one row, left to right (insertion by column; stable) *)
 Fixpoint ins_col (x : cell) (l : list cell) : list cell :=
